@@ -28,7 +28,9 @@ LocS(asRef, asType) == Blk(<<>>, [attrs |-> EmptyFn, blocks |-> [sub |-> SubS], 
 Sel == [req |-> FALSE, opt |-> TRUE, comp |-> FALSE, dep |-> TRUE, depr |-> FALSE, dflt |-> Nil]
 ModS == Blk(<<L(FALSE)>>, Body([source |-> Sel @@ [cons |-> [k |-> "lit", t |-> "string"]]], EmptyFn, NoExt),
             << [lk |-> <<>>, ak |-> << <<"source", Str("s1")>> >>, body |-> Body([in1 |-> A(FALSE)], EmptyFn, NoExt) @@ [tas |-> <<[addr |-> <<"module", "x">>, scope |-> "module", typ |-> "string"]>>]],
-               [lk |-> <<>>, ak |-> << <<"source", Str("s2")>> >>, body |-> Body([in2 |-> A(FALSE)], EmptyFn, NoExt) @@ [tas |-> <<[addr |-> <<"module", "y">>, scope |-> "module", typ |-> "number"]>>]] >>)
+               [lk |-> <<>>, ak |-> << <<"source", Str("s2")>> >>, body |-> Body([in2 |-> A(FALSE)], EmptyFn, NoExt) @@ [tas |-> <<[addr |-> <<"module", "y">>, scope |-> "module", typ |-> "object",
+                                                                       \* nested targetables: module.y.id below module.y (structural predicates of TraceTargets)
+                                                                       nested |-> <<[addr |-> <<"module", "y", "id">>, scope |-> "module", typ |-> "string"]>>]>>]] >>)
         @@ [addr |-> AddrB(<< <<"static", "module">>, <<"label", 0>> >>, "module", TRUE, "", FALSE, FALSE, FALSE)]
 ByValS(opt) == Blk(<<>>, Body([name |-> A(FALSE)], EmptyFn, NoExt), <<>>)
                @@ [addr |-> AddrB(<< <<"static", "bv">>, <<(IF opt THEN "attrvalopt" ELSE "attrval"), "name">> >>, "bv", TRUE, "", FALSE, FALSE, FALSE)]
